@@ -17,7 +17,7 @@ import time
 from .. import build, impl, model, report, sexp, t2
 
 UNIVERSE = ['a', 'ab', 'abc', 'abcd', 'b', 'ba', 'abd']
-KNOWN_CLASS = 'c12_shorter_value_not_recognised'
+KNOWN_CLASS = 'shorter_value_not_recognised'
 
 MANIFEST = dict(
     text=('Theorems of Props/C12.v on Model/BashSem.v (an interpreter of the emitted bash skeleton over the emitted tables): '
